@@ -17,6 +17,9 @@ R33d one row per browser subscription: WebPushRepository.store_subscription look
 R33e "runs they contributed to" means the current run: in RecentEngineRepository.store_recent_engine the stored contributors
      are taken over only when the stored run id equals the current run's id (compared before the stored id is overwritten),
      and they are cleared when no run is active - the restore after a reconnect trusts what is stored.
+R33f at most once per browser subscription whatever the table holds: in publish_message the post is made only for an endpoint that has
+     not been posted to in this call (a seen-set tested before and filled with the post) - store_subscription's look-up-then-insert
+     runs in a thread pool, two simultaneous subscribe requests of one browser leave two rows.
 Decides the selection structure; database contents are outside.
 """
 from __future__ import annotations
@@ -172,7 +175,33 @@ def run(ctx) -> None:
 
 
 
+def _r33f(ctx) -> None:
+    prog = ctx.prog
+    ctx.rule("R33f", "publish_message posts to an endpoint at most once per notification")
+    pmf = prog.func(f"{CLS}.publish_message")
+    g = cfg_of(pmf)
+    posts = [n for n in g.nodes if any(call_attr(c) == "_post_webpush" for c in n.calls())]
+    if not posts:
+        raise AnchorError("publish_message: _post_webpush call not found")
+    for pn in posts:
+        inst = "publish_message: the post is made only for an endpoint not yet posted to"
+        guard = None
+        for t, pol in g.conditions_at(pn):
+            if isinstance(t, ast.Compare) and len(t.ops) == 1 and isinstance(t.ops[0], (ast.In, ast.NotIn)) and norm(t.left).endswith(".endpoint") \
+                    and isinstance(t.comparators[0], ast.Name) and ((isinstance(t.ops[0], ast.In) and not pol) or (isinstance(t.ops[0], ast.NotIn) and pol)):
+                guard = t.comparators[0].id
+        filled = guard is not None and any(isinstance(c, ast.Call) and call_attr(c) == "add" and norm(c.func.value) == guard
+                                           and c.args and norm(c.args[0]).endswith(".endpoint") for c in ast.walk(pmf.node))
+        if guard and filled:
+            ctx.ok("R33f", inst)
+        else:
+            ctx.fail("R33f", pmf, pn.ast, inst, "one post per row: two rows for one endpoint (two subscribe requests of the same browser handled "
+                     "at the same time - look-up and insert run in different pool threads, there is no unique constraint) are two "
+                     "notifications to one subscription, for every later notification")
+
+
 def _repo_rules(ctx) -> None:
+    _r33f(ctx)
     prog = ctx.prog
     ctx.rule("R33d", "store_subscription updates the existing (user, endpoint) row instead of adding a second one")
     ctx.rule("R33e", "stored contributors belong to the stored run only")
